@@ -10,12 +10,14 @@ package timer
 //@   prop C13 C07
 //@   requires f != nil
 //@   ensures [fires-at-most-once] ncalls(f) <= old(ncalls(f)) + 1
+//@   ensures [a-timer-whose-context-is-already-cancelled-never-fires] old(closed(ctxdone(ctx))) ==> ncalls(f) == old(ncalls(f))
 //@   ensures [never-early] forall p int :: old(evlen) <= p && p < evlen && isFnCall(ev(p)) ==>
 //@             p > old(evlen) && isRecv(ev(p - 1)) && intval(evval(ev(p - 1))) >= t
 //@   ensures [fired-or-cancelled] ncalls(f) == old(ncalls(f)) + 1 ||
-//@             (ncalls(f) == old(ncalls(f)) && isRecv(ev(evlen - 1)) && evch(ev(evlen - 1)) == ctxdone(ctx))
+//@             (ncalls(f) == old(ncalls(f)) && isRecv(ev(evlen - 1)) && (evch(ev(evlen - 1)) == ctxdone(ctx) || closed(ctxdone(ctx))))
 //@   loop 1 for
 //@     invariant evlen == old(evlen) && ncalls(f) == old(ncalls(f))
+//@     invariant old(closed(ctxdone(ctx))) ==> closed(ctxdone(ctx))
 
 // recurringTimer with repetition count n (n == -1: unbounded).  `fired` = ncalls(f) - old(ncalls(f)).
 //@ func recurringTimer
@@ -25,9 +27,10 @@ package timer
 //@   requires interval.Repititions >= -1 && interval.Interval.Start != nil
 //@   ensures [at-most-n] interval.Repititions >= 0 ==> ncalls(f) - old(ncalls(f)) <= interval.Repititions
 //@   ensures [zero-never-fires] interval.Repititions == 0 ==> ncalls(f) == old(ncalls(f))
+//@   ensures [a-timer-whose-context-is-already-cancelled-never-fires] old(closed(ctxdone(ctx))) ==> ncalls(f) == old(ncalls(f))
 //@   ensures [exactly-n-unless-cancelled] interval.Repititions >= 0 && interval.Interval.End == nil ==>
 //@             ncalls(f) - old(ncalls(f)) == interval.Repititions ||
-//@             (exists p int :: old(evlen) <= p && p < evlen && isRecv(ev(p)) && evch(ev(p)) == ctxdone(ctx))
+//@             (exists p int :: old(evlen) <= p && p < evlen && isRecv(ev(p)) && evch(ev(p)) == ctxdone(ctx)) || closed(ctxdone(ctx))
 //@   ensures [final-at-most-once] ncalls(final) <= old(ncalls(final)) + 1
 //@   ensures [no-firing-after-final] forall p int, q int :: old(evlen) <= p && p < q && q < evlen &&
 //@             isFnCall(ev(p)) && evch(ev(p)) == fncode(final) ==> !(isFnCall(ev(q)) && evch(ev(q)) == fncode(f))
@@ -36,6 +39,7 @@ package timer
 //@     invariant interval.Repititions >= 0 ==> ncalls(f) - old(ncalls(f)) + repetitions <= interval.Repititions
 //@     invariant interval.Repititions >= 0 && interval.Interval.End == nil ==> ncalls(f) - old(ncalls(f)) + repetitions == interval.Repititions
 //@     invariant interval.Repititions == -1 ==> repetitions == -1
+//@     invariant old(closed(ctxdone(ctx))) ==> closed(ctxdone(ctx)) && ncalls(f) == old(ncalls(f))
 //@     invariant ncalls(final) == old(ncalls(final)) && ncalls(f) >= old(ncalls(f))
 //@     invariant interval.Interval.End == nil ==> endTimer == nil
 //@     invariant forall p int :: old(evlen) <= p && p < evlen ==> !(isRecv(ev(p)) && evch(ev(p)) == ctxdone(ctx))
